@@ -282,6 +282,15 @@ fn monitor(c: &Conversation, ty: usize, n_pages: usize, invariants_mode: bool, r
         rep.violation(mon, "panic", &sig(c, ty), format!("{} panicked: {} after [{}]", c.op.name(), p, c.show()), conv_json(c, ty, n_pages));
         return;
     }
+    // a bus error reaches the caller as the very error the bus returned: same concrete type, same kind, same text
+    if let ctl::SignOut::Bus(got) = &c.out {
+        let want = crate::doubles::describe_bus_error(crate::doubles::bus_error(c.error_flavour).as_ref());
+        rep.count("bus_errors_compared_with_what_the_bus_returned");
+        if *got != want {
+            let mon = if invariants_mode { "trace_invariants" } else { "lockstep_refctl" };
+            rep.violation(mon, "bus_error_not_handed_up_unchanged", &sig(c, ty), format!("{} ({}): the bus failed with {} but the call returned {}", c.op.name(), TYPES[ty].name, want, got), conv_json(c, ty, n_pages));
+        }
+    }
     if invariants_mode {
         for (class, what) in invariants(c, rep) {
             rep.violation("trace_invariants", class, &sig(c, ty), format!("{} ({} @{:04X}): {} — conversation [{}] returned {}", c.op.name(), TYPES[ty].name, c.own, what, c.show(), c.out.show()), conv_json(c, ty, n_pages));
@@ -577,6 +586,35 @@ fn failing_streaks(invariants_mode: bool, rep: &mut Report) {
     }
 }
 
+/// A page flip that takes its time: the sign answers k polls with "in progress" before it reports the new state
+/// (k up to 70 000 — hours at the bus's pace). The controller keeps polling, one query per report, and then succeeds.
+fn long_polls(invariants_mode: bool, rep: &mut Report) {
+    for k in [10usize, 99, 100, 101, 254, 255, 256, 257, 1000, 65_534, 65_535, 65_536, 65_537, 70_000] {
+        for op in [Op::Show, Op::LoadNext] {
+            let (progress, op2) = (if op == Op::Show { S_SHOW_PROG } else { S_LOAD_PROG } as u16, op.clone());
+            let mut polls = 0usize;
+            let pick = Box::new(move |_depth: usize, pos: &'static str| {
+                if pos == "switch_query" {
+                    polls += 1;
+                    match polls {
+                        1 => proceed(&op2, pos, 0),
+                        n if n <= k + 1 => progress,
+                        _ => proceed(&op2, pos, 1),
+                    }
+                } else {
+                    proceed(&op2, pos, 0)
+                }
+            });
+            let mut sess = Session::new(3, 2, 5);
+            let c = sess.call(&op, &[], vec![], k + 50, pick, false);
+            monitor(&c, 5, 0, invariants_mode, rep);
+            if c.out.is_ok() && c.log.len() >= k {
+                rep.count("long_polls_that_ended_in_success");
+            }
+        }
+    }
+}
+
 fn random_conversation(ctx: &Ctx, rng: &mut Rng, invariants_mode: bool, rep: &mut Report) {
     let ty = rng.usize(TYPES.len());
     let own = rng.edgy_u16();
@@ -600,7 +638,7 @@ fn random_conversation(ctx: &Ctx, rng: &mut Rng, invariants_mode: bool, rep: &mu
     let pick = Box::new(move |_d: usize, _p: &'static str| if pr.chance(4, 5) { *pr.pick(&good_for_pick) } else { pr.below(N_SYMBOLS as u64) as u16 });
     let _ = ctx;
     // half of the random conversations are held with a Sign object that has already made one to three random calls
-    let flavour = rng.below(6) as u8;
+    let flavour = rng.below(8) as u8;
     rep.seen("bus_error_flavours", u64::from(flavour));
     let mut sess = Session::new(own, foreign, ty).with_error_flavour(flavour);
     if rng.chance(1, 2) {
@@ -627,14 +665,14 @@ pub fn run(ctx: &Ctx, invariants_mode: bool) -> Outcome {
             Setup { ty: 5, own: 0xFFFF, foreign: 0x7FFF, flavour: 1 },
             Setup { ty: 8, own: 3, foreign: 0x8003, flavour: 0 },
             Setup { ty: 2, own: 0x80, foreign: 0x81, flavour: 2 },
-            Setup { ty: 3, own: 0, foreign: 1, flavour: 5 },
-            Setup { ty: 8, own: 0x80, foreign: 0x8080, flavour: 4 },
+            Setup { ty: 3, own: 0, foreign: 1, flavour: 7 },
+            Setup { ty: 8, own: 0x80, foreign: 0x0000, flavour: 6 },
         ]
     } else {
         let mut v = vec![];
         for ty in 0..TYPES.len() {
             for (i, own) in [0u16, 3, 0x80, 0xFFFF].into_iter().enumerate() {
-                v.push(Setup { ty, own, foreign: if (ty + i) % 2 == 0 { own ^ 1 } else { own ^ 0x8000 }, flavour: ((ty + i) % 6) as u8 });
+                v.push(Setup { ty, own, foreign: if (ty + i) % 2 == 0 { own ^ 1 } else { own ^ 0x8000 }, flavour: ((ty + i) % 8) as u8 });
             }
         }
         v
@@ -696,6 +734,8 @@ pub fn run(ctx: &Ctx, invariants_mode: bool) -> Outcome {
                 marathon(invariants_mode, rep);
             } else if shard == nj + 1 {
                 failing_streaks(invariants_mode, rep);
+            } else if shard == nj + 2 {
+                long_polls(invariants_mode, rep);
             }
             for _ in 0..n_random / rand_shards as u64 {
                 random_conversation(ctx, &mut rng, invariants_mode, rep);
@@ -708,8 +748,9 @@ pub fn run(ctx: &Ctx, invariants_mode: bool) -> Outcome {
     let mut floors = vec![
         floor("every DFS subtree enumerated to its end", report.get("dfs_subtrees_completed") == nj as u64, report.get("dfs_subtrees_completed")),
         floor("every canned earlier call performed, then every operation enumerated on the same Sign object", report.set_len("preludes_performed") >= PRELUDES.len() as u64 && report.get("conversations_with_a_reused_sign_object") > 100_000, format!("{} preludes, {} conversations", report.set_len("preludes_performed"), report.get("conversations_with_a_reused_sign_object"))),
-        floor("bus errors of every kind (custom, io::Error Interrupted / TimedOut / WouldBlock, wrapped io::Error)", report.set_len("bus_error_flavours") == 6, report.set_len("bus_error_flavours")),
+        floor("bus errors of every kind (custom, io::Error Interrupted / TimedOut / WouldBlock, wrapped io::Error, FrameError around an io::Error)", report.set_len("bus_error_flavours") == 8, report.set_len("bus_error_flavours")),
         floor("calls that fail exactly k times in a row on one Sign object, then ordinary calls (14 counts x 6 kinds of failure)", report.get("failing_streaks_followed_by_ordinary_calls") == 84, report.get("failing_streaks_followed_by_ordinary_calls")),
+        floor("page flips that are polled 10 .. 70 000 times before they complete", report.get("long_polls_that_ended_in_success") == 28, report.get("long_polls_that_ended_in_success")),
         floor("one Sign object used for 70 000 calls", report.get("marathon_calls_on_one_sign_object") == 70_000, report.get("marathon_calls_on_one_sign_object")),
         floor("every reply symbol offered at every protocol position", n_positions >= 16 && cells == n_positions * N_SYMBOLS as u64, format!("{} cells over {} positions", cells, n_positions)),
         floor("ok / protocol error / bus error observed for every operation", (0..6u64).all(|o| (0..3u64).all(|k| report.sets.get("op_x_outcome").map(|s| s.contains(&(o * 4 + k))).unwrap_or(false))), report.set_len("op_x_outcome")),
@@ -738,7 +779,7 @@ pub fn run(ctx: &Ctx, invariants_mode: bool) -> Outcome {
         report,
         level: "fault_enumeration",
         rule: format!(
-            "EVERY reply script over the 44-symbol alphabet (13 states x own/foreign address, 6 acks x own/foreign, none, goodbye, hello, unknown frame, data chunk, bus error), enumerated depth-first to the natural end of configure, configure_if_needed, send_pages (0/1/2 pages), show_loaded_page, load_next_page (polling bounded at {} replies) and shut_down, for {} (sign type, address) setups; plus seeded random scripts with random types/addresses; distinct by (operation, type, address, conversation) hash; all non-trivial. {}",
+            "EVERY reply script over the 46-symbol alphabet (13 states x own/foreign address, 6 acks x own/foreign, none, goodbye, hello, unknown frame, data chunk, bus error, an echo of the message just sent, a state-report-type frame with an undocumented state byte), enumerated depth-first to the natural end of configure, configure_if_needed, send_pages (0/1/2 pages), show_loaded_page, load_next_page (polling bounded at {} replies) and shut_down, for {} (sign type, address) setups; plus seeded random scripts with random types/addresses; distinct by (operation, type, address, conversation) hash; all non-trivial. {}",
             poll_bound,
             setups.len(),
             if invariants_mode { "Monitor: trace invariants I1-I5 (no reference conversation consulted)." } else { "Monitor: reference protocol machine in lockstep inside the bus." }
